@@ -81,8 +81,13 @@ func app(sort Sort, op string, args ...Term) Term {
 		b.WriteString(a.S)
 	}
 	b.WriteByte(')')
+	if bigTermHook != nil && b.Len() > 200000 {
+		bigTermHook(op, b.Len())
+	}
 	return Term{b.String(), sort}
 }
+
+var bigTermHook func(op string, n int)
 
 func And(ts ...Term) Term {
 	var xs []Term
